@@ -93,6 +93,53 @@ func checkDirected(b *harness.B, rng *rand.Rand) {
 		b.Count(fmt.Sprintf("observed:nested-depth-%d-decodes=%v", depth, d.Err() == nil), 1)
 	}
 
+	// ---- long byte strings (beyond any chunk a decoder may read them in, and not a multiple of it)
+	for _, n := range []int{65535, 65536, 65537, 100000, 131072, 131073, 200001, 1 << 20, 1<<20 + 7} {
+		data := make([]byte, n)
+		for i := range data {
+			data[i] = byte(i*7 + n)
+		}
+		type rt struct {
+			name string
+			enc  []byte
+			dec  func(d *types.Decoder) []byte
+		}
+		key := types.PublicKey{9}
+		cases := []rt{
+			{"Transaction.ArbitraryData", encT(types.Transaction{ArbitraryData: [][]byte{data, {1, 2, 3}}, MinerFees: []types.Currency{types.NewCurrency64(5)}}), func(d *types.Decoder) []byte {
+				var t types.Transaction
+				t.DecodeFrom(d)
+				return encT(t)
+			}},
+			{"V2Transaction.ArbitraryData", encT(types.V2Transaction{ArbitraryData: data, MinerFee: types.NewCurrency64(5)}), func(d *types.Decoder) []byte {
+				var t types.V2Transaction
+				t.DecodeFrom(d)
+				return encT(t)
+			}},
+			{"Attestation.Value", encT(types.V2Transaction{Attestations: []types.Attestation{{PublicKey: key, Key: "k", Value: data}, {PublicKey: key, Key: "after", Value: []byte{4}}}}), func(d *types.Decoder) []byte {
+				var t types.V2Transaction
+				t.DecodeFrom(d)
+				return encT(t)
+			}},
+		}
+		for _, c := range cases {
+			d := types.NewBufDecoder(c.enc)
+			var re []byte
+			p := safely(func() { re = c.dec(d) })
+			b.Eval(1)
+			b.Count("directed_long_byte_strings", 1)
+			b.Distinct("directed-long-bytes", c.name, n)
+			switch {
+			case p != "":
+				b.Violate("C11/panic/decode/long-byte-string/"+c.name, fmt.Sprintf("decoding a %d-byte string panicked: %s", n, p), map[string]any{"length": n})
+			case d.Err() != nil:
+				b.Violate("C11/roundtrip/long-byte-string/"+c.name+"/decode-error", fmt.Sprintf("a value with a %d-byte string does not decode from its own encoding: %v", n, d.Err()), map[string]any{"length": n})
+			case !bytes.Equal(re, c.enc):
+				b.Violate("C11/roundtrip/long-byte-string/"+c.name+"/reencode", fmt.Sprintf("a value with a %d-byte string re-encodes differently (at byte %d)", n, firstDiff(c.enc, re)), map[string]any{"length": n})
+			}
+		}
+	}
+
 	// ---- multiproof sets with shared leaves
 	for round := 0; round < 40; round++ {
 		n := uint64(3 + rng.IntN(200))
